@@ -313,7 +313,7 @@ fn structure_edits__frame_and_errors() {
     println!("VERIF-COUNT structure_edits__frame_and_errors {n}");
 }
 
-// @obl props=C01,C02,C03 tier=quick fn=abe_policy::Dimension::restrict shape="hierarchies of 1..4 attributes built in every insertion order (after = any existing / None), then every single deletion; order, name lookup and restriction at every rank"
+// @obl props=C01,C02,C03,C13 tier=quick fn=abe_policy::Dimension::restrict shape="hierarchies of 1..4 attributes built in every insertion order (after = any existing / None), then every single deletion; order, name lookup and restriction at every rank"
 #[test]
 fn hierarchy__order_and_restriction() {
     // build hierarchies by inserting "n{k}" after a chosen existing attribute, track the expected order in a Vec
@@ -338,6 +338,14 @@ fn hierarchy__order_and_restriction() {
                 _ => panic!("C01: restriction of a hierarchy is a hierarchy"),
             }
             n += 1;
+        }
+        // serialization keeps the hierarchy (order included)
+        {
+            use cosmian_crypto_core::bytes_ser_de::Serializable;
+            let bytes = s.serialize().unwrap();
+            assert!(bytes.len() == s.length(), "C13: access structure: announced length");
+            let back = AccessStructure::deserialize(&bytes).unwrap();
+            assert!(back == s, "C13: the access structure with hierarchy {order:?} does not survive a serialization round-trip (order or parameters changed)");
         }
         // deletions: the remaining attributes keep order, parameters and restrictions; lookups by name stay right
         for del in 0..order.len() {
